@@ -199,6 +199,46 @@ func memrun(args []string) error {
 			}
 		})
 		tr.Add(wl.Ev{"ev": "Stream", "dir": "read", "sizeKiB": n / 1024, "peakKiB": p, "totalKiB": t, "ok": err == nil && got == n && crcOK, "why": errStr(err)})
+		// reader: the lexer WITHOUT an attachment callback (the attachment is skipped), and the sequential message read of
+		// the same stream through Reader.Messages(UsingIndex(false)): nobody asked for the attachment, it must not be buffered
+		p, t, err = measure(func() error {
+			lexer, err := mcap.NewLexer(attachmentStream(n), &mcap.LexerOptions{})
+			if err != nil {
+				return err
+			}
+			defer lexer.Close()
+			for {
+				_, _, err := lexer.Next(nil)
+				if err == io.EOF {
+					return nil
+				}
+				if err != nil {
+					return err
+				}
+			}
+		})
+		tr.Add(wl.Ev{"ev": "Stream", "dir": "read-skip", "sizeKiB": n / 1024, "peakKiB": p, "totalKiB": t, "ok": err == nil, "why": errStr(err)})
+		p, t, err = measure(func() error {
+			reader, err := mcap.NewReader(attachmentStream(n))
+			if err != nil {
+				return err
+			}
+			defer reader.Close()
+			it, err := reader.Messages(mcap.UsingIndex(false))
+			if err != nil {
+				return err
+			}
+			for {
+				_, _, _, err := it.NextInto(nil)
+				if err == io.EOF {
+					return nil
+				}
+				if err != nil {
+					return err
+				}
+			}
+		})
+		tr.Add(wl.Ev{"ev": "Stream", "dir": "scan-skip", "sizeKiB": n / 1024, "peakKiB": p, "totalKiB": t, "ok": err == nil, "why": errStr(err)})
 	}
 	tr.Add(wl.Ev{"ev": "End"})
 	_ = fmt.Sprint
